@@ -182,6 +182,21 @@ def check(recipe) -> list[Fail]:
                 model.weights = np.append(model.weights, neww)
                 model.known_w = np.append(model.known_w, knownw)
                 name = f"extend[{op[1]}]"
+            elif name in ("append_wrong_size", "extend_wrong_size"):
+                if nc == 0 and na == 0:
+                    continue       # the empty ensemble adopts whatever comes first
+                bad = build_geom(_frame(dict(base, atoms=base["atoms"] + [base["atoms"][0] if base["atoms"] else {"el": 6, "iso": None, "label": None, "atype": 1, "stereo": 0, "geom": 0, "fc": 0, "fs": 0, "attrib": {}}]), 99, na + 1), "Molecule")
+                try:
+                    if name == "append_wrong_size":
+                        ens.append(bad)
+                    else:
+                        ens.extend([bad])
+                    accepted = True
+                except Exception:
+                    accepted = False
+                if accepted and np.shape(ens.coords)[0] != nc:
+                    return [Fail(f"geometry-with-wrong-atom-count-accepted:{name}", f"step {step}: {na + 1} atoms into an ensemble of {na}")]
+                name = name + "(rejected)"
             elif name == "scale":
                 ens.scale(op[1])
                 model.coords = model.coords * op[1]
@@ -359,6 +374,7 @@ def strat(tier):
         st.tuples(st.just("append"), st.sampled_from(["Molecule", "Structure", "CartesianGeometry"])).map(list),
         st.tuples(st.just("extend"), st.sampled_from(["list", "ensemble", "iterator"]), i).map(list),
         st.tuples(st.just("scale"), st.sampled_from([0.5, 2.0, 1.25])).map(list),
+        st.sampled_from([["append_wrong_size"], ["extend_wrong_size"]]),
         st.tuples(st.sampled_from(["translate1", "translate2"]), st.lists(f, min_size=3, max_size=3)).map(list),
         st.tuples(st.just("rotate"), i).map(list),
         st.tuples(st.sampled_from(["write_coord", "write_coords_setter", "write_charge", "write_atom_field"]), i, i, f).map(list),
